@@ -231,8 +231,9 @@ def run(ctx):
     return K.finish(
         ctx, "proof",
         rule=("cases = 6 corpus cases (the proved witnesses + a sound-fragment case with mutation after the bucket was built) + random "
-              "cases of 5..30 ops (..54 thorough) over 2..8 keys: msgpack bodies (nil/bool/int/uint/float/string/time scalars in every "
-              "wire width, nested map, scalar array, array of maps; fields sometimes missing), records without a body, deletes, and "
+              "cases of 5..30 ops (..54 thorough) over 2..8 keys, every third on a persistent swamp that is closed and reloaded "
+              "between queries: msgpack bodies (nil/bool/int/uint/float/string/time scalars in every "
+              "wire width, boundary values MaxInt64/MinInt64/2^53+-1/MaxUint64/2^63/-0.0/NaN/+-Inf, nested map, scalar array, array of maps; fields sometimes missing), records without a body, deletes, and "
               "queries (key/creation/update/expiration order x asc/desc x From 0..2 x Limit 0..3 x window x MaxResults) whose filter "
               "trees (AND/OR, depth <= 3, EQUAL/IN/range/emptiness legs, plain, [*] and #len paths, labels) are seeded from a live "
               "body; every query runs through the accelerated route and, wrapped as the only sub-group of an OR group, through the "
